@@ -510,7 +510,7 @@ func sszLeanFacts(pkgs map[string]*sszPackage, types []*sszType) (string, string
 	var b strings.Builder
 	b.WriteString("import Zrnt.Schema.KnownDeviations\n/-! GENERATED by /verif/go/cmd/extract (sszfacts) from /repo — do not edit.\n\n")
 	b.WriteString("Every Go type with the SSZ method set: declaration, descriptors of the five method bodies, view type.\n")
-	b.WriteString("`row_ok_<type>`: the per-type obligation (`decide`); a failing row names the type, `checkType` names the method\n(`rowOk`: agrees with the schema, or disagrees exactly as recorded in Zrnt.Schema.KnownDeviations). -/\n")
+	b.WriteString("Data only (this module always compiles; the model driver reads it). The per-row obligations are in\nZrnt.Gen.SszCodec (four encoding methods, C04), Zrnt.Gen.SszRoot (HashTreeRoot, C05), Zrnt.Gen.SszTags (json/yaml tags, C04). -/\n")
 	b.WriteString("namespace Zrnt.Gen.SszFacts\nopen Zrnt.Schema Zrnt.Schema.Facts\n\n")
 	// views
 	var viewNames []string
@@ -588,18 +588,6 @@ func sszLeanFacts(pkgs map[string]*sszPackage, types []*sszType) (string, string
 		fmt.Fprintf(&b, "  %q%s\n", o, sep)
 	}
 	b.WriteString("]\n\n")
-	for i, t := range types {
-		fmt.Fprintf(&b, "theorem row_ok_%s : rowOk owners views %s = true := by decide +kernel\n", sszLeanIdent(t.key()), ids[i])
-	}
-	// membership lift: the quantified statement from the per-row obligations
-	b.WriteString("\n/-- every row checks (from the per-type obligations above) -/\ntheorem all_rows_ok : types.all (fun T => rowOk owners views T) = true := by\n  simp only [types, List.all_cons, List.all_nil, Bool.and_self,\n")
-	for i, t := range types {
-		sep := ","
-		if i == len(types)-1 {
-			sep = "]"
-		}
-		fmt.Fprintf(&b, "    row_ok_%s%s\n", sszLeanIdent(t.key()), sep)
-	}
 	b.WriteString("\nend Zrnt.Gen.SszFacts\n")
 	return b.String(), fmt.Sprintf("%d method bodies, %d opaque; %d view type definitions", nMethods, nOpaque, len(viewNames)), nil
 }
